@@ -105,6 +105,13 @@ func (c *Controller) hit(name string) {
 	}
 }
 
+// SetOnHit registers fn to run at every hit of the named point.
+func (c *Controller) SetOnHit(name string, fn func()) {
+	c.mu.Lock()
+	c.OnHit[name] = fn
+	c.mu.Unlock()
+}
+
 // Hits returns hit counts per point.
 func (c *Controller) Hits() map[string]int64 {
 	c.mu.Lock()
